@@ -40,7 +40,12 @@ class ExprMixin:
                 return v.v if isinstance(v, Cell) else v
             f = f.parent
         if name in fr.globals:
-            return fr.globals[name]
+            v = fr.globals[name]
+            if self.env.object_models:
+                sch = self.env.object_models.get(id(v))
+                if sch is not None:
+                    return self.global_object(sch)
+            return v
         if hasattr(_bi, name):
             return getattr(_bi, name)
         raise TargetExc(self.make_exception(NameError, [name], {}))
@@ -318,6 +323,12 @@ class ExprMixin:
         for x in (a, b):
             if isinstance(x, (Obj, MList, MSet, MDict)):
                 return smt.BoolC(type(a) is type(b) and a.oid == b.oid)
+        if isinstance(a, SOpaque) and isinstance(b, SOpaque):
+            return smt.Eq(a.t, b.t)
+        if isinstance(a, SOpaque) or isinstance(b, SOpaque):
+            other = b if isinstance(a, SOpaque) else a
+            if isinstance(other, (tuple, Obj, MList, MDict, MSet, str, int)):
+                return smt.FALSE
         if isinstance(a, SV) or isinstance(b, SV):
             raise Unsupported('is on symbolic values')
         return smt.BoolC(a is b)
